@@ -180,6 +180,8 @@ def diff_scn(si, sm, sections=None):
         if m:
             keys += [k for k in m.O.keys() if k not in c.O]
         for key in keys:
+            if key.startswith("pfx"):
+                continue  # oracle-side sections printed by the harness only (prefix graphs, C16)
             base = key.split(":")[-1] if key.startswith("snap:") else key
             if sections is not None and base not in sections and key not in sections:
                 continue
